@@ -11,8 +11,8 @@
    sub_ty                   = the order bool < int < float, String alone *)
 From Coq Require Import ZArith QArith List Bool.
 From RV Require Import Base.Wire Base.Text Lang.PyAst Lang.PySem Lang.Infer Lang.InferGuard Lang.InferSpec
-  Lang.InferComp Lang.Decl Lang.DeclSpec Lang.FnSpec Lang.AliasSpec Lang.StmtRef Lang.CtlSpec Lang.CallFree
-  Proofs.InferP Proofs.JoinP Proofs.DeclP Proofs.FnP Proofs.CompP Proofs.CtlP Proofs.DynP.
+  Lang.InferComp Lang.Decl Lang.DeclSpec Lang.FnSpec Lang.AliasSpec Lang.StmtRef Lang.CtlSpec Lang.CallFree Lang.FnProto
+  Proofs.InferP Proofs.JoinP Proofs.DeclP Proofs.FnP Proofs.CompP Proofs.CtlP Proofs.DynP Proofs.FnProtoP.
 Import ListNotations.
 Open Scope Z_scope.
 
@@ -650,3 +650,103 @@ Theorem C02_narrower_store_is_exact :
     exists w, c_store (cpp_type t) v = Some w /\ crepr (cpp_type t) w /\ same_num v w.
 Proof. exact narrower_store_exact. Qed.
 Print Assumptions C02_narrower_store_is_exact.
+
+(* ---------------------------------------------------------------- which variant a call executes (Lang/FnProto.v)
+   The parser types every call site from the variant it specialised for the site's signature; which variant the firmware
+   EXECUTES is decided by the C++ compiler: name lookup finds the declarations written above the call site (prototype
+   block, then the definitions in emission order), overload resolution ranks the implicit conversions of the arguments.
+   emit_sketch defs          = what emit() writes: one prototype per emitted function in front of the first body
+   candidates sk s f         = the overload set of f at site s (InBody i: the body of the i-th definition; InMain: setup/loop)
+   cxx_resolve sk s f args  = Some ps: the call executes the variant with parameter types ps; None: ambiguous / not viable
+   call_guard fe f sg        = the variant the alias table resolves sg to is emitted and either has exactly the argument
+                               types or wins overload resolution among all emitted variants (evaluated without a site) *)
+
+(* the overload set does not depend on the place of the call: a caller emitted above the helper sees what setup() sees *)
+Theorem C02_overload_set_is_the_same_at_every_call_site :
+  forall defs s f, candidates (emit_sketch defs) s f = dedup (named f defs).
+Proof. exact candidates_everywhere. Qed.
+Print Assumptions C02_overload_set_is_the_same_at_every_call_site.
+
+Theorem C02_resolution_is_position_independent :
+  forall defs s1 s2 f args, cxx_resolve (emit_sketch defs) s1 f args = cxx_resolve (emit_sketch defs) s2 f args.
+Proof. exact resolution_position_independent. Qed.
+Print Assumptions C02_resolution_is_position_independent.
+
+(* a call whose argument types are the parameter types of an emitted variant executes that variant - from any site,
+   whatever other variants of any arity and type are emitted, in whatever order *)
+Theorem C02_exact_call_reaches_its_variant :
+  forall defs s f c, In (f, c) defs -> cxx_resolve (emit_sketch defs) s f (exact_args c) = Some c.
+Proof. exact call_reaches_exact_variant. Qed.
+Print Assumptions C02_exact_call_reaches_its_variant.
+
+Theorem C02_exact_match_wins_overload_resolution :
+  forall cands c, NoDup cands -> In c cands -> pick (exact_args c) cands = Some c.
+Proof. exact pick_exact. Qed.
+Print Assumptions C02_exact_match_wins_overload_resolution.
+
+(* every call site resolves to the variant the parser specialised for it (the definition stored under the signature the alias
+   table resolves the site's labels to), wherever the site is - under the guard, which covers the widened signatures
+   (F-C02-widened-variant-overwritten region: an (int, float) request emitted as (float, float)) by running overload resolution *)
+Theorem C02_call_site_reaches_the_specialised_variant_partial :
+  forall fe f sg d s,
+    call_guard fe f sg = true -> meant_variant fe f sg = Some d ->
+    cxx_resolve (emit_sketch (emitted_decls fe)) s f (exact_args (map cpp_type sg)) = Some (params_of d).
+Proof. exact call_site_reaches_meant_variant. Qed.
+Print Assumptions C02_call_site_reaches_the_specialised_variant_partial.
+
+(* def sc(x): return tw(x) + 1 ; def tw(v): return v * 2 ; x = 1.5 ; w = sc(x):  sc(float) is emitted above int tw(int) and
+   float tw(float); inside its body both are candidates and the float argument reaches float tw(float) *)
+Example C02_call_site_nonvacuous_forward :
+  exists ps,
+    run_items None fwd_overload_prog = Some ps /\
+    emitted_decls (p_fe ps) = demo_decls /\
+    call_guard (p_fe ps) n_tw [TFloat] = true /\ call_guard (p_fe ps) n_sc [TFloat] = true /\
+    candidates (emit_sketch demo_decls) (InBody 0) n_tw = [[CInt]; [CFloat]] /\
+    cxx_resolve (emit_sketch demo_decls) (InBody 0) n_tw [AT CFloat] = Some [CFloat].
+Proof. exact fwd_overload_demo. Qed.
+Print Assumptions C02_call_site_nonvacuous_forward.
+
+(* the theorems rest on the prototype block declaring EVERY variant: with one prototype per function name the same call,
+   written in the body emitted above the helper, silently converts 1.5 to 1 and runs int tw(int) (setup() does not notice);
+   with no prototype block the call is ill-formed *)
+Theorem C02_prototype_per_variant_is_necessary :
+  candidates (emit_sketch_one_proto_per_name demo_decls) (InBody 0) n_tw = [[CInt]] /\
+  cxx_resolve (emit_sketch_one_proto_per_name demo_decls) (InBody 0) n_tw [AT CFloat] = Some [CInt] /\
+  c_store CInt (VFloat (3 # 2)) = Some (VInt 1) /\
+  cxx_resolve (emit_sketch_one_proto_per_name demo_decls) InMain n_tw [AT CFloat] = Some [CFloat] /\
+  cxx_resolve (emit_sketch_no_protos demo_decls) (InBody 0) n_tw [AT CFloat] = None.
+Proof. exact one_proto_per_name_misroutes. Qed.
+Print Assumptions C02_prototype_per_variant_is_necessary.
+
+(* whatever the prototype block is, setup()/loop() see every prototype and every definition *)
+Theorem C02_main_sees_every_declaration :
+  forall protos defs f s, In s (candidates (mk_sketch protos defs) InMain f) <-> In (f, s) protos \/ In (f, s) defs.
+Proof. exact main_sees_everything. Qed.
+Print Assumptions C02_main_sees_every_declaration.
+
+(* the boundary of the guard: a C++ double argument (float literal) is ambiguous between int and float variants
+   (F-C06-overload-ambiguous), bool is promoted to int, int between float and bool is ambiguous, ... *)
+Example C02_overload_resolution_boundary :
+  pick [ADouble] [[CInt]; [CFloat]] = None /\
+  pick [AT CBool] [[CInt]; [CFloat]] = Some [CInt] /\
+  pick [AT CInt] [[CFloat]; [CBool]] = None /\
+  pick [AT CInt] [[CFloat]] = Some [CFloat] /\
+  pick [AT CInt; AT CFloat] [[CFloat; CFloat]; [CInt; CInt]] = None /\
+  pick [AT CInt; AT CFloat] [[CFloat; CFloat]; [CInt; CFloat]] = Some [CInt; CFloat] /\
+  pick [AT CString] [[CInt]; [CFloat]] = None /\
+  pick [] [[]] = Some [].
+Proof. exact overload_boundary. Qed.
+Print Assumptions C02_overload_resolution_boundary.
+
+(* a caller defined ABOVE its helper and called with its def-time signature keeps the typing of the def-time parse, when the
+   helper had no source: def sc(x): return tw(x) + 1 ; def tw(v): return v * 0.5 ; w = sc(3) emits int sc(int) although
+   tw(int) returns float: 2.5 in Python, 2 on the device (finding F-C02-forward-call-result-typed-int) *)
+Theorem C02_forward_call_result_refuted :
+  exists ps d e,
+    run_items None fwd_stale_prog = Some ps /\
+    In (n_sc, d) (selected_functions (p_fe ps)) /\ fd_params d = [(i_x, CInt)] /\ fd_ret d = CInt /\
+    In (n_tw, e) (selected_functions (p_fe ps)) /\ fd_params e = [(i_v, CInt)] /\ fd_ret e = CFloat /\
+    p_globals ps = [(i_w, CInt)] /\
+    c_store CInt (VFloat (5 # 2)) = Some (VInt 2).
+Proof. exact fwd_stale_result. Qed.
+Print Assumptions C02_forward_call_result_refuted.
